@@ -62,7 +62,7 @@ class UsedDefault:
 from jaqalpaq.core.parameter import Parameter
 
 
-@contract("core.algorithm.used_qubit_visitor:UsedQubitIndicesVisitor.bind_argument", props=["C07", "C13"])
+@contract("core.algorithm.used_qubit_visitor:UsedQubitIndicesVisitor.bind_argument", props=["C07", "C13", "C06"])
 class BindArgument:
     """C07 (lexical scoping of arguments): an argument of a macro call is evaluated in the CALLER's scope before the
     callee's parameters come into play - a parameter becomes what the caller's scope binds it to, a reference written
